@@ -216,6 +216,28 @@ def _types_loop_error():
     return TypeErrorRoot("assignment changes the type of a variable inside a loop")
 
 
+def _types_call_bound(a, env, ats):
+    """
+    Type a call of a name that the program itself has bound (a helper function, a
+    variable): such a binding takes precedence over the built-in constructors and
+    functions of the same name, as it does when the program runs.
+    """
+    rules_no_restriction(a)
+    rules_no_restriction(a.func)
+    t_f = env[a.func.id]
+    t = TypeErrorRoot("only functions can be called")
+    if isinstance(t_f, TypeError):
+        t = typeerror_demote(t_f)
+    elif getattr(t_f, "__name__", None) == "Callable" and hasattr(t_f, "__args__"):
+        ts = t_f.__args__[:-1]
+        t = TypeErrorRoot("function arguments do not match function type")
+        if len(ats) == len(ts):
+            if all(t_a == t_ for (t_a, t_) in zip(ats, ts)):
+                t = t_f.__args__[-1]
+    audits(a, "types", t)
+    audits(a.func, "types", TypeInParent())
+
+
 def types(a, env=None, func=False):
     """
     Infer types of :obj:`ast` where possible, adding the type (or error)
@@ -263,6 +285,12 @@ def types(a, env=None, func=False):
                 for a_ in a.body:
                     env_ = types(a_, env_, func=True)
             else:
+                # The definition rebinds its name whether or not it is admitted into the
+                # subset: what an earlier definition (or a built-in function of that
+                # name) promised no longer holds for the calls that follow.
+                env[a.name] = TypeErrorRoot(
+                    "function is not defined within the supported subset"
+                )
                 t_ret = None
                 try:
                     t_ret = _types_eval(a.returns)
@@ -614,7 +642,9 @@ def types(a, env=None, func=False):
                         )
 
         elif isinstance(a.func, ast.Name):
-            if a.func.id == "Party":
+            if a.func.id in env:
+                _types_call_bound(a, env, ats)
+            elif a.func.id == "Party":
                 rules_no_restriction(a)
                 rules_no_restriction(a.func)
                 t = TypeError("party requires name parameter (a string)")
@@ -814,21 +844,6 @@ def types(a, env=None, func=False):
                 audits(a, "types", t)
                 audits(a.func, "types", TypeInParent())
 
-            elif a.func.id in env:
-                rules_no_restriction(a)
-                rules_no_restriction(a.func)
-                t_f = env[a.func.id]
-                t = TypeErrorRoot("only functions can be called")
-                if getattr(t_f, "__name__", None) == "Callable" and hasattr(
-                    t_f, "__args__"
-                ):
-                    ts = t_f.__args__[:-1]
-                    t = TypeErrorRoot("function arguments do not match function type")
-                    if len(ats) == len(ts):
-                        if all(t_a == t_ for (t_a, t_) in zip(ats, ts)):
-                            t = t_f.__args__[-1]
-                audits(a, "types", t)
-                audits(a.func, "types", TypeInParent())
 
     elif isinstance(a, ast.Subscript):
         rules_no_restriction(a)
